@@ -185,13 +185,21 @@ class Program:
 
     # ------------------------------------------------------------------ lookup
     def fn(self, qn):
-        f = self.functions.get(qn)
+        f = self.maybe_fn(qn)
         if f is None:
             raise AnalysisError(f"anchor vanished: function {qn}")
         return f
 
     def maybe_fn(self, qn):
-        return self.functions.get(qn)
+        f = self.functions.get(qn)
+        if f is None and "." in qn:
+            # `module.name` still denotes the function for every user of the module when the module imports the name from where it was moved to
+            mod, name = qn.rsplit(".", 1)
+            if mod in self.modules:
+                r = self.resolve_name(mod, name)
+                if r and r[0] == "func":
+                    return r[1]
+        return f
 
     def module(self, name):
         m = self.modules.get(name)
